@@ -24,49 +24,44 @@ theorem mem_ratios_of {tol : K} {T : Tab K} {h i : Nat} (hi : i < T.a.length)
 
 theorem abs_not_lt_zero (a : K) : ¬ |a| < 0 := not_lt.2 (abs_nonneg a)
 
-/-- the selection function of `find_t`'s fold, at tolerance `tol`. -/
-noncomputable def sel (tol : K) (basis prefer : List Nat) (mn ir : Nat × K) : Nat × K :=
-  if Tol.feq tol ir.2 mn.2 then
-    (let bi := basis.getD ir.1 0
-     let bm := basis.getD mn.1 0
-     let toPrefer := prefer.contains bi && !(prefer.contains bm)
-     if bi < bm || toPrefer then ir else mn)
-  else if Tol.flt tol ir.2 mn.2 then ir else mn
+/-- the scan step of `find_t` (`Tableau.selRatio`, either shape of the source) under the old name. -/
+noncomputable abbrev sel (tol : K) (basis prefer : List Nat) (mn ir : Nat × K) : Nat × K := selRatio tol basis prefer mn ir
 
-theorem sel_zero (basis prefer : List Nat) (mn ir : Nat × K) :
-    sel (0:K) basis prefer mn ir = if ir.2 < mn.2 then ir else mn := by
-  unfold sel
-  rw [feq_zero]
-  simp only [Bool.false_eq_true, if_false]
-  by_cases h : ir.2 < mn.2
-  · rw [if_pos ((ExactK.flt_iff 0 _ _).2 ⟨h, abs_not_lt_zero _⟩), if_pos h]
-  · have : Tol.flt (0:K) ir.2 mn.2 = false := by
-      cases hh : Tol.flt (0:K) ir.2 mn.2 with
-      | false => rfl
-      | true => exact absurd ((ExactK.flt_iff 0 _ _).1 hh).1 h
-    rw [this, if_neg h]; simp
+/-- with exact comparisons (`tol = 0` in the tolerant shape; any `tol` in the exact shape) the scan step returns one of
+its arguments, with the smaller ratio. -/
+theorem sel_min_exact (basis prefer : List Nat) (mn ir : Nat × K) :
+    (sel (0:K) basis prefer mn ir).2 ≤ mn.2 ∧ (sel (0:K) basis prefer mn ir).2 ≤ ir.2 := by
+  unfold sel selRatio
+  cases Gen.ratioTestExact with
+  | true =>
+    simp only [if_true, ExactK.lt_eq, ExactK.eq_eq, decide_eq_true_eq]
+    by_cases h : ir.2 < mn.2
+    · rw [if_pos h]; exact ⟨h.le, le_refl _⟩
+    · rw [if_neg h]
+      by_cases e : ir.2 = mn.2
+      · rw [if_pos e]; split <;> simp [e]
+      · rw [if_neg e]; exact ⟨le_refl _, (lt_of_le_of_ne (not_lt.1 h) (fun x => e x.symm)).le⟩
+  | false =>
+    simp only [Bool.false_eq_true, if_false, feq_zero]
+    by_cases h : ir.2 < mn.2
+    · rw [if_pos ((ExactK.flt_iff 0 _ _).2 ⟨h, abs_not_lt_zero _⟩)]; exact ⟨h.le, le_refl _⟩
+    · have : ¬ Tol.flt (0:K) ir.2 mn.2 = true := fun hh => h ((ExactK.flt_iff 0 _ _).1 hh).1
+      rw [if_neg this]; exact ⟨le_refl _, not_lt.1 h⟩
 
-/-- the fold of `find_t` with exact comparisons is a plain strict-minimum scan. -/
+/-- the fold of `find_t` with exact comparisons returns a minimum. -/
 theorem foldl_sel_zero_min (basis prefer : List Nat) :
     ∀ (l : List (Nat × K)) (x : Nat × K),
       (l.foldl (sel (0:K) basis prefer) x).2 ≤ x.2 ∧ ∀ y ∈ l, (l.foldl (sel (0:K) basis prefer) x).2 ≤ y.2
   | [], x => by simp
   | y :: ys, x => by
-    simp only [List.foldl_cons, sel_zero]
-    have ih := foldl_sel_zero_min basis prefer ys (if y.2 < x.2 then y else x)
-    by_cases hlt : y.2 < x.2
-    · simp only [hlt, if_true] at ih ⊢
-      refine ⟨le_trans ih.1 hlt.le, ?_⟩
-      intro z hz
-      rcases List.mem_cons.1 hz with rfl | hz
-      · exact ih.1
-      · exact ih.2 z hz
-    · simp only [hlt, if_false] at ih ⊢
-      refine ⟨ih.1, ?_⟩
-      intro z hz
-      rcases List.mem_cons.1 hz with rfl | hz
-      · exact le_trans ih.1 (not_lt.1 hlt)
-      · exact ih.2 z hz
+    simp only [List.foldl_cons]
+    have ih := foldl_sel_zero_min basis prefer ys (sel (0:K) basis prefer x y)
+    obtain ⟨h1, h2⟩ := sel_min_exact basis prefer x y
+    refine ⟨le_trans ih.1 h1, ?_⟩
+    intro z hz
+    rcases List.mem_cons.1 hz with rfl | hz
+    · exact le_trans ih.1 h2
+    · exact ih.2 z hz
 
 theorem findT_eq_sel (tol : K) (T : Tab K) (h : Nat) (prefer : List Nat) :
     findT tol T h prefer = match ratios tol T h with
